@@ -330,39 +330,42 @@ type c18Notif struct {
 }
 
 type c18WB struct {
-	KV       map[string]string `json:"kv"`
-	Start    int64             `json:"start"`
-	End      int64             `json:"end"`
-	Old      string            `json:"old"`
-	New      string            `json:"new"`
-	Bounds   []string          `json:"boundaries"`
-	BadBound string            `json:"bad_boundary,omitempty"`
-	BadText  string            `json:"bad_text,omitempty"`
-	Expect   []c18Item         `json:"-"`
-	Added    map[string]string `json:"-"`
-	Failed   string            `json:"injected_failure,omitempty"` // this write-back met an injected disk error
-	interm   []string
+	KV         map[string]string `json:"kv"`
+	Start      int64             `json:"start"`
+	End        int64             `json:"end"`
+	Old        string            `json:"old"`
+	New        string            `json:"new"`
+	Bounds     []string          `json:"boundaries"`
+	BadBound   string            `json:"bad_boundary,omitempty"`
+	BadText    string            `json:"bad_text,omitempty"`
+	Expect     []c18Item         `json:"-"`
+	Added      map[string]string `json:"-"`
+	Failed     string            `json:"injected_failure,omitempty"` // this write-back met an injected disk error
+	Overlapped bool              `json:"external_edit_inside,omitempty"`
+	interm     []string
 }
 
 type c18Data struct {
-	Versions   [][]c18Item `json:"-"`
-	VersionStr []string    `json:"versions"`
-	EditStamps []int64     `json:"edit_stamps"`
-	EditMs     []int64     `json:"edit_ms"`
-	Gets       []*c18Get   `json:"gets"`
-	Final      []*c18Get   `json:"final_gets"`
-	Notifs     []*c18Notif `json:"notifications"`
-	WBs        []*c18WB    `json:"writebacks"`
-	Prefix     string      `json:"prefix"`
-	Suffix     string      `json:"suffix"`
-	Exclude    []string    `json:"exclude"`
-	FinalFile  string      `json:"final_file"`
-	ever       map[string]map[string]bool
-	cur        []c18Item
-	lastChange int64
-	inWB       *c18WB
-	path       string
-	disk       *simos.Disk
+	Overlaps    int `json:"external_edits_inside_writebacks,omitempty"`
+	overlapNext []c18Item
+	Versions    [][]c18Item `json:"-"`
+	VersionStr  []string    `json:"versions"`
+	EditStamps  []int64     `json:"edit_stamps"`
+	EditMs      []int64     `json:"edit_ms"`
+	Gets        []*c18Get   `json:"gets"`
+	Final       []*c18Get   `json:"final_gets"`
+	Notifs      []*c18Notif `json:"notifications"`
+	WBs         []*c18WB    `json:"writebacks"`
+	Prefix      string      `json:"prefix"`
+	Suffix      string      `json:"suffix"`
+	Exclude     []string    `json:"exclude"`
+	FinalFile   string      `json:"final_file"`
+	ever        map[string]map[string]bool
+	cur         []c18Item
+	lastChange  int64
+	inWB        *c18WB
+	path        string
+	disk        *simos.Disk
 }
 
 //go:norace
@@ -411,6 +414,22 @@ func (o *c18Observer) ApplyConfig(conf config.Config) {
 //go:norace
 func (d *c18Data) boundary(kind, path string) {
 	wb := d.inWB
+	if wb != nil && d.overlapNext != nil && simrt.ChanceF(1, 2) {
+		// an external edit lands in the middle of the application's write-back (between two of
+		// its disk operations). Whichever of the two survives on disk, the configuration must
+		// afterwards reflect the file.
+		next := d.overlapNext
+		d.overlapNext = nil
+		wb.Overlapped = true
+		d.Overlaps++
+		simrt.Fault("external_edit_inside_writeback")
+		d.noteVersion(next)
+		d.Versions = append(d.Versions, next)
+		d.EditMs = append(d.EditMs, simrt.NowNs()/1e6)
+		d.EditStamps = append(d.EditStamps, simrt.Stamp())
+		d.disk.ReplaceRaw(d.path, []byte(c18Render(next)))
+		d.lastChange = simrt.Elapsed()
+	}
 	if wb == nil || path != d.path {
 		return
 	}
@@ -625,6 +644,19 @@ func c18Body(rc *RunCtx) {
 				}
 				wb.Expect = exp
 				d.WBs = append(d.WBs, wb)
+				if !failFirst && simrt.ChanceF(1, 4) {
+					ov := c18GenFile(d.cur)
+					have := false
+					for i := range ov {
+						if ov[i].Kind == "kv" && ov[i].Key == "a.b.c" {
+							ov[i].Value, have = "ext"+strconv.Itoa(w), true
+						}
+					}
+					if !have {
+						ov = append(ov, c18Item{Kind: "kv", Key: "a.b.c", Value: "ext" + strconv.Itoa(w)})
+					}
+					d.overlapNext = ov
+				}
 				d.inWB = wb
 				fired := ""
 				if failFirst && w == 0 {
@@ -654,6 +686,7 @@ func c18Body(rc *RunCtx) {
 				wb.End = simrt.Stamp()
 				simrt.SetOp(0)
 				d.inWB = nil
+				d.overlapNext = nil
 				disk.FailOpen, disk.FailWrite = nil, nil
 				nb, _ := disk.ReadRaw(d.path)
 				wb.New = string(nb)
@@ -695,6 +728,16 @@ func c18Body(rc *RunCtx) {
 	stop = true
 	fb, _ := disk.ReadRaw(d.path)
 	d.FinalFile = string(fb)
+	if d.Overlaps > 0 {
+		// an external edit raced with a write-back: the model of the file is whatever is on disk
+		var cur []c18Item
+		for _, ln := range strings.Split(strings.TrimSuffix(d.FinalFile, "\n"), "\n") {
+			if m := reKV.FindStringSubmatch(ln); m != nil {
+				cur = append(cur, c18Item{Kind: "kv", Key: m[1], Value: strings.Replace(m[2], "\\\\", "\\", -1)})
+			}
+		}
+		d.cur = cur
+	}
 	for _, it := range d.cur {
 		if it.Kind != "kv" {
 			continue
@@ -797,6 +840,9 @@ func c18After(rc *RunCtx, res *simrt.Result) {
 			continue
 		}
 		mixs(strings.Join(wb.Bounds, ","))
+		if wb.Overlapped {
+			continue // old and new content are not defined for this one; convergence is judged at the end
+		}
 		// atomicity at every boundary: old or new complete content
 		for _, s := range wb.interm {
 			if s != wb.New {
